@@ -1,6 +1,6 @@
 //! Process-level rig for C01 / C03: the real `roughenough-client` binary against a loopback
 //! responder whose replies come from the Lean reference responder (honest or forged).
-use crate::rig::{enc_msg, frame};
+use crate::wire::{enc_msg, frame};
 use crate::util::*;
 use crate::Ctx;
 use std::io::{BufRead, BufReader, Write};
@@ -252,6 +252,12 @@ fn now_s() -> String {
 
 /// run the real client against a server that is already listening on `port` (no responder here)
 pub fn run_client_to(spec: &RunSpec, port: u16) -> RunResult {
+    run_client_to_with(spec, port, &mut || {})
+}
+
+/// like `run_client_to`; `after_spawn` runs once the client process has been started (used to release
+/// a stopped server after the client's requests are queued behind other traffic)
+pub fn run_client_to_with(spec: &RunSpec, port: u16, after_spawn: &mut dyn FnMut()) -> RunResult {
     let mut cmd = Command::new(client_bin());
     cmd.arg("127.0.0.1").arg(port.to_string()).arg("-p").arg(if spec.ver == 'I' { "13" } else { "0" });
     cmd.arg("-z").arg("-f").arg("%s.%f").arg("-t").arg("3").arg("-v");
@@ -265,7 +271,9 @@ pub fn run_client_to(spec: &RunSpec, port: u16) -> RunResult {
     cmd.env("RUST_BACKTRACE", "0");
     cmd.stdin(Stdio::null()).stdout(Stdio::piped()).stderr(Stdio::piped());
     let t0 = now_s();
-    let outp = cmd.output().expect("run client");
+    let child = cmd.spawn().expect("run client");
+    after_spawn();
+    let outp = child.wait_with_output().expect("run client");
     let t1 = now_s();
     let exit = outp.status.code().unwrap_or(-1);
     let stdout = String::from_utf8_lossy(&outp.stdout).to_string();
@@ -449,15 +457,23 @@ pub fn run_forged(ctx: &Ctx) {
                 }
                 // single-component forgeries: bit flip / re-randomise in every region
                 for (name, path) in REGIONS {
-                    for mode in 0..3 {
+                    for mode in 0..6 {
                         let t = tmpl.clone();
                         let seedbits = r.next();
-                        let kind = format!("{}-{}", name, ["bitflip", "rerand", "lastbyte"][mode]);
+                        let kind = format!("{}-{}", name, ["bitflip", "rerand", "lastbyte", "trunc4", "grow4", "ragged"][mode]);
                         one(&mut out, &mut d, &kind, &mut |d, req| {
                             let honest = t.ask(d, req);
                             let body = unwrap_wire(ver, &honest);
                             let mut rr = Rng::new(seedbits);
                             let forged = edit_path(&body, path, &mut |v: &mut Vec<u8>| {
+                                // length-changing edits (the value stays a multiple of 4 so that the
+                                // message still decodes): these also apply to an empty value
+                                match mode {
+                                    3 => { let l = v.len(); v.truncate(l.saturating_sub(4)); return; }
+                                    4 => { v.extend(rr.bytes(4)); return; }
+                                    5 => { let l = *rr.pick(&[4usize, 12, 36, 100, 28, 60, 68]); *v = rr.bytes(l); return; }
+                                    _ => {}
+                                }
                                 if v.is_empty() { return; }
                                 match mode {
                                     0 => { let i = rr.below(v.len() as u64) as usize; v[i] ^= 1 << rr.below(8); }
@@ -541,6 +557,18 @@ pub fn run_forged(ctx: &Ctx) {
                     if !out.mine() { out.skip(); } else {
                         let spec = RunSpec { ver, key: Some((b64, pk_of(&lt))), nreq: 1, json: false, kind: "replay-previous-run".into() };
                         let res = run_client(&spec, &mut |_, _| resp.clone());
+                        emit(&mut out, &spec, &res);
+                    }
+                }
+                // the same replay with its PATH swapped for a value that is not a whole number of nodes
+                if let Some((lt, resp)) = prev_honest.get(&ver).cloned() {
+                    if !out.mine() { out.skip(); } else {
+                        let spec = RunSpec { ver, key: Some((b64, pk_of(&lt))), nreq: 1, json: false, kind: "replay-previous-run-ragged-path".into() };
+                        let l = *r.pick(&[4usize, 12, 36, 100]);
+                        let junk = r.bytes(l);
+                        let body = unwrap_wire(ver, &resp);
+                        let forged = match edit_path(&body, &[b"PATH"], &mut |v: &mut Vec<u8>| { *v = junk.clone(); }) { Some(b) => wrap_wire(ver, &b), None => resp.clone() };
+                        let res = run_client(&spec, &mut |_, _| forged.clone());
                         emit(&mut out, &spec, &res);
                     }
                 }
